@@ -537,10 +537,11 @@ type twoCase struct {
 	Sched []int `json:"schedule"` // which hand takes the next step: 0 = A, 1 = B
 }
 
-func runTwo(c *twoCase, chA, chB Chooser, next func(i int) int, st *vlib.Stats) *vlib.Violation {
+func runTwo(prop string, c *twoCase, chA, chB Chooser, next func(i int) int, st *vlib.Stats) *vlib.Violation {
 	mk := func(cs *Case) *Hand {
 		cs.Cfg.ConstructorDeck = true
-		return &Hand{Prop: "C14", Cfg: cs.Cfg, St: st, Mons: []Monitor{&dealMon{}}}
+		_, mons := profileFor(prop)
+		return &Hand{Prop: prop, Cfg: cs.Cfg, St: st, Mons: mons}
 	}
 	hs := [2]*Hand{mk(c.A), mk(c.B)}
 	chs := [2]Chooser{chA, chB}
@@ -580,9 +581,13 @@ func runTwo(c *twoCase, chA, chB Chooser, next func(i int) int, st *vlib.Stats) 
 }
 
 func TestTwoTables(t *testing.T) {
+	prop := vlib.Prop()
 	st := vlib.NewStats("two-tables")
 	vlib.RunRapid(t, "hand", "two", st, func(rt *rapid.T) vlib.Outcome {
-		pr := Profile{MaxN: 6}
+		pr, _ := profileFor(prop)
+		pr.MaxN = 6
+		pr.Probes = 0
+		pr.Cuts = false
 		a := GenCfg(rt, pr)
 		b := GenCfg(rt, pr)
 		b.ShortDeck, b.ShortTable = a.ShortDeck, a.ShortTable
@@ -593,10 +598,10 @@ func TestTwoTables(t *testing.T) {
 				b.Dealer = 0
 			}
 		}
-		c := &twoCase{A: &Case{Prop: "C14", Cfg: a}, B: &Case{Prop: "C14", Cfg: b}}
+		c := &twoCase{A: &Case{Prop: prop, Cfg: a}, B: &Case{Prop: prop, Cfg: b}}
 		chA, chB := NewRapidChooser(rt, pr), NewRapidChooser(rt, pr)
 		bias := rapid.IntRange(1, 3).Draw(rt, "bias")
-		v := runTwo(c, chA, chB, func(i int) int {
+		v := runTwo(prop, c, chA, chB, func(i int) int {
 			if rapid.IntRange(0, 3).Draw(rt, "who") < bias {
 				return 0
 			}
@@ -618,10 +623,10 @@ func TestTwoTables(t *testing.T) {
 	})
 }
 
-func replayTwo(c *twoCase) *vlib.Violation {
+func replayTwo(c *twoCase, prop string) *vlib.Violation {
 	sched := c.Sched
-	cc := &twoCase{A: &Case{Prop: "C14", Cfg: c.A.Cfg}, B: &Case{Prop: "C14", Cfg: c.B.Cfg}}
-	return runTwo(cc, &ReplayChooser{Ops: c.A.Ops}, &ReplayChooser{Ops: c.B.Ops}, func(i int) int {
+	cc := &twoCase{A: &Case{Prop: prop, Cfg: c.A.Cfg}, B: &Case{Prop: prop, Cfg: c.B.Cfg}}
+	return runTwo(prop, cc, &ReplayChooser{Ops: c.A.Ops}, &ReplayChooser{Ops: c.B.Ops}, func(i int) int {
 		if i < len(sched) {
 			return sched[i]
 		}
